@@ -18,6 +18,8 @@ import (
 	"os"
 	"os/exec"
 	"path/filepath"
+	"runtime"
+	"runtime/pprof"
 	"sort"
 	"strings"
 	"time"
@@ -111,7 +113,32 @@ func main() {
 		if eng == nil {
 			die2("no engine for %q", *prop)
 		}
+		if hp := os.Getenv("VERIF_HEAPPROF"); hp != "" {
+			go func() {
+				next := uint64(3 << 30)
+				for {
+					time.Sleep(2 * time.Second)
+					var ms runtime.MemStats
+					runtime.ReadMemStats(&ms)
+					if ms.HeapInuse > next {
+						if f, err := os.Create(fmt.Sprintf("%s.%d.at%dG", hp, *w, ms.HeapInuse>>30)); err == nil {
+							pprof.WriteHeapProfile(f)
+							f.Close()
+						}
+						next = ms.HeapInuse * 2
+					}
+				}
+			}()
+		}
 		st := eng.Worker(cfg)
+		if hp := os.Getenv("VERIF_HEAPPROF"); hp != "" {
+			// development aid: where does a worker's memory go
+			if f, err := os.Create(fmt.Sprintf("%s.%d", hp, *w)); err == nil {
+				runtime.GC()
+				pprof.WriteHeapProfile(f)
+				f.Close()
+			}
+		}
 		if err := st.WriteWorker(*out); err != nil {
 			die2("%v", err)
 		}
@@ -200,7 +227,7 @@ func execFresh(prop string, raw json.RawMessage, cfg workerCfg) (sig, what strin
 	if env == nil {
 		// one P and no garbage collection: sync.Pool (per-P caches, emptied by the GC) then behaves the same way every
 		// time, so a violation that depends on what a pool holds replays as reliably as the code allows
-		env = append(os.Environ(), "GOMAXPROCS=1", "GOGC=off")
+		env = append(os.Environ(), "GOMAXPROCS=1", "GOGC=off", "GOMEMLIMIT=6GiB")
 	}
 	cmd := exec.Command(self, "exec", "-verif", cfg.Verif, "-repo", repoDir, "-scratch", cfg.Scratch)
 	cmd.Env = env
@@ -317,7 +344,9 @@ func run(cfg workerCfg, noEvidence bool) int {
 		se := &bytes.Buffer{}
 		cmd.Stderr = se
 		cmd.Stdout = se
-		cmd.Env = append(os.Environ(), "GOMAXPROCS=1", "GOGC=400")
+		// GOMEMLIMIT: a soft ceiling, so that one transient multi-gigabyte result does not raise the collector's target
+		// to five times that for the rest of the run
+		cmd.Env = append(os.Environ(), "GOMAXPROCS=1", "GOGC=400", "GOMEMLIMIT=1GiB")
 		if err := cmd.Start(); err != nil {
 			die2("start worker: %v", err)
 		}
